@@ -97,7 +97,8 @@ class World:
                     walk(x, depth + 1)
             elif isinstance(v, DictV):
                 seen.add(id(v))
-                snaps.append((v, 'dict', (list(v.keys), list(v.vals))))
+                snaps.append((v, 'dict', (list(v.keys), list(v.vals),
+                                          v.unknown)))
                 for x in v.vals:
                     walk(x, depth + 1)
             elif isinstance(v, TupleV):
@@ -120,7 +121,8 @@ class World:
                         a is not b for a, b in zip(v.items, saved)):
                     v.items[:] = saved
             else:
-                ks, vs = saved
+                ks, vs, unknown = saved
+                v.unknown = unknown
                 if len(v.keys) != len(ks) or len(v.vals) != len(vs) or any(
                         a is not b for a, b in zip(v.vals, vs)):
                     v.keys[:] = ks
